@@ -174,4 +174,236 @@ end
 theorem anf_ret (e : Expr) (n : Nat) : anf e n ret = (wrap (dec e n).L (dec e n).c, (dec e n).n) := by
   rw [anf_eq_dec]; rfl
 
+/-! ### counters only grow -/
+
+theorem decImm_mono_of (e : Expr) (n : Nat) (h : ∀ n, n ≤ (dec e n).n) : n ≤ (decImm e n).n := by
+  unfold decImm decImmK
+  split
+  · exact Nat.le_refl _
+  · exact Nat.le_refl _
+  · have := h (n + 1); simp only; omega
+
+mutual
+theorem dec_mono : ∀ (e : Expr) (n : Nat), n ≤ (dec e n).n
+  | .var x ty, n => by simp [dec]
+  | .prim p, n => by simp [dec]
+  | .tag idx ty, n => by simp [dec]
+  | .closure ty ps b, n => by simp [dec]
+  | .traitCall tr m ty recv args, n => by simp [dec]
+  | .constr (.enum tn vn idx) ty [], n => by simp [dec]
+  | .constr (.struct sn) ty [], n => by simp [dec, decList]
+  | .constr c ty (a :: as), n => by
+    have := decList_mono (a :: as) n
+    simp only [dec]; exact this
+  | .tuple ty items, n => by simp only [dec]; exact decList_mono items n
+  | .array ty items, n => by simp only [dec]; exact decList_mono items n
+  | .letE x v b, n => by
+    have h1 := dec_mono v n
+    have h2 := dec_mono b (dec v n).n
+    simp only [dec]; omega
+  | .ite c t e, n => by
+    have h1 := decImm_mono_of c n (dec_mono c)
+    have h2 := dec_mono t (decImm c n).n
+    have h3 := dec_mono e (dec t (decImm c n).n).n
+    simp only [dec, anf_ret]; unfold decImm at *; omega
+  | .while c b, n => by
+    have h1 := dec_mono c n
+    have h2 := dec_mono b (dec c n).n
+    simp only [dec, anf_ret]; omega
+  | .go e, n => by simp only [dec]; exact decImm_mono_of e n (dec_mono e)
+  | .matchE ty s arms dflt, n => by
+    have h1 := decImm_mono_of s n (dec_mono s)
+    have h2 := anfArms_mono arms (decImm s n).n
+    have h3 := anfDflt_mono dflt (anfArms arms (decImm s n).n).2
+    simp only [dec]; unfold decImm at *; omega
+  | .cget c idx ty e, n => by simp only [dec]; exact decImm_mono_of e n (dec_mono e)
+  | .un op ty e, n => by simp only [dec]; exact decImm_mono_of e n (dec_mono e)
+  | .bin op ty l r, n => by
+    have h1 := decImm_mono_of l n (dec_mono l)
+    have h2 := dec_mono r (decImm l n).n
+    have h3 := decImm_mono_of r (decImm l n).n (dec_mono r)
+    simp only [dec]; unfold decImm at *
+    split
+    · split <;> simp only [anf_ret] <;> omega
+    · simp only; omega
+  | .call ty f args, n => by
+    have h1 := decImm_mono_of f n (dec_mono f)
+    have h2 := decList_mono args (decImm f n).n
+    simp only [dec]; unfold decImm at *; omega
+  | .toDyn tr forTy ty e, n => by simp only [dec]; exact decImm_mono_of e n (dec_mono e)
+  | .dynCall tr m ty recv args, n => by
+    have h1 := decImm_mono_of recv n (dec_mono recv)
+    have h2 := decList_mono args (decImm recv n).n
+    simp only [dec]; unfold decImm at *; omega
+  | .proj idx ty e, n => by simp only [dec]; exact decImm_mono_of e n (dec_mono e)
+
+theorem decList_mono : ∀ (es : List Expr) (n : Nat), n ≤ (decList es n).n
+  | [], n => by simp [decList]
+  | e :: rest, n => by
+    have h1 := decImm_mono_of e n (dec_mono e)
+    have h2 := decList_mono rest (decImm e n).n
+    simp only [decList]; unfold decImm at *; omega
+
+theorem anfArms_mono : ∀ (arms : List Arm) (n : Nat), n ≤ (anfArms arms n).2
+  | [], n => by simp [anfArms]
+  | .mk lhs body :: rest, n => by
+    have h1 := dec_mono body n
+    have h2 := anfArms_mono rest (dec body n).n
+    simp only [anfArms, anf_ret]; omega
+
+theorem anfDflt_mono : ∀ (d : Option Expr) (n : Nat), n ≤ (anfDflt d n).2
+  | none, n => by simp [anfDflt]
+  | some e, n => by
+    have h1 := dec_mono e n
+    simp only [anfDflt, anf_ret]; omega
+end
+
+theorem decImm_mono (e : Expr) (n : Nat) : n ≤ (decImm e n).n := decImm_mono_of e n (dec_mono e)
+
+/-! ### which names a binding chain binds -/
+
+def keys (L : Binds) : List String := L.map Prod.fst
+
+@[simp] theorem keys_nil : keys [] = [] := rfl
+@[simp] theorem keys_cons (x : String) (v : Expr) (L : Binds) : keys ((x, v) :: L) = x :: keys L := rfl
+@[simp] theorem keys_append (L1 L2 : Binds) : keys (L1 ++ L2) = keys L1 ++ keys L2 := by
+  simp [keys]
+
+/-- `x` is a `let`-bound name from `bs` or one of the temporaries `t<n>` … `t<n'-1>` -/
+def KeyOk (bs : List String) (n n' : Nat) (x : String) : Prop :=
+  x ∈ bs ∨ ∃ m, n ≤ m ∧ m < n' ∧ x = tmpName m
+
+theorem KeyOk.weaken {bs bs' : List String} {n n' n0 n1 : Nat} {x : String} (h : KeyOk bs n n' x)
+    (hbs : ∀ y, y ∈ bs → y ∈ bs') (h0 : n0 ≤ n) (h1 : n' ≤ n1) : KeyOk bs' n0 n1 x := by
+  rcases h with h | ⟨m, hm1, hm2, hm3⟩
+  · exact Or.inl (hbs _ h)
+  · exact Or.inr ⟨m, by omega, by omega, hm3⟩
+
+theorem decImm_keys_of (e : Expr) (n : Nat)
+    (h : ∀ n x, x ∈ keys (dec e n).L → KeyOk (bnd e) n (dec e n).n x) (x : String)
+    (hx : x ∈ keys (decImm e n).L) : KeyOk (bnd e) n (decImm e n).n x := by
+  unfold decImm decImmK at hx ⊢
+  split at hx
+  · simp at hx
+  · simp at hx
+  · simp only [keys_append, keys_cons, keys_nil, List.mem_append, List.mem_singleton] at hx
+    have hm := dec_mono e (n + 1)
+    rcases hx with hx | hx
+    · exact (h (n + 1) x hx).weaken (fun _ hy => hy) (by omega) (Nat.le_refl _)
+    · exact Or.inr ⟨n, Nat.le_refl _, by simp only; omega, hx⟩
+
+mutual
+theorem dec_keys : ∀ (e : Expr) (n : Nat) (x : String), x ∈ keys (dec e n).L → KeyOk (bnd e) n (dec e n).n x
+  | .var _ _, n, x, hx => by simp [dec] at hx
+  | .prim p, n, x, hx => by simp [dec] at hx
+  | .tag idx ty, n, x, hx => by simp [dec] at hx
+  | .closure ty ps b, n, x, hx => by simp [dec] at hx
+  | .traitCall tr m ty recv args, n, x, hx => by simp [dec] at hx
+  | .constr (.enum tn vn idx) ty [], n, x, hx => by simp [dec] at hx
+  | .constr (.struct sn) ty [], n, x, hx => by simp [dec, decList] at hx
+  | .constr c ty (a :: as), n, x, hx => by
+    simp only [dec] at hx ⊢
+    exact (decList_keys (a :: as) n x hx).weaken (fun y hy => by simpa [bnd] using hy) (Nat.le_refl _) (Nat.le_refl _)
+  | .tuple ty items, n, x, hx => by
+    simp only [dec] at hx ⊢
+    exact (decList_keys items n x hx).weaken (fun y hy => by simpa [bnd] using hy) (Nat.le_refl _) (Nat.le_refl _)
+  | .array ty items, n, x, hx => by
+    simp only [dec] at hx ⊢
+    exact (decList_keys items n x hx).weaken (fun y hy => by simpa [bnd] using hy) (Nat.le_refl _) (Nat.le_refl _)
+  | .letE y v b, n, x, hx => by
+    have h1 := dec_mono v n
+    have h2 := dec_mono b (dec v n).n
+    simp only [dec, keys_append, keys_cons, List.mem_append, List.mem_cons] at hx ⊢
+    rcases hx with hx | hx | hx
+    · exact (dec_keys v n x hx).weaken (fun z hz => by simp [bnd, hz]) (Nat.le_refl _) (by omega)
+    · exact Or.inl (by simp [bnd, hx])
+    · exact (dec_keys b _ x hx).weaken (fun z hz => by simp [bnd, hz]) (by omega) (Nat.le_refl _)
+  | .ite c t e, n, x, hx => by
+    have h1 := decImm_mono c n
+    have h2 := dec_mono t (decImm c n).n
+    have h3 := dec_mono e (dec t (decImm c n).n).n
+    simp only [dec] at hx ⊢
+    refine (decImm_keys_of c n (dec_keys c) x hx).weaken (fun z hz => by simp [bnd, hz]) (Nat.le_refl _) ?_
+    simp only [anf_ret]; unfold decImm at *; omega
+  | .while c b, n, x, hx => by simp [dec] at hx
+  | .go e, n, x, hx => by
+    simp only [dec] at hx ⊢
+    exact (decImm_keys_of e n (dec_keys e) x hx).weaken (fun z hz => by simpa [bnd] using hz) (Nat.le_refl _) (Nat.le_refl _)
+  | .matchE ty s arms dflt, n, x, hx => by
+    have h1 := decImm_mono s n
+    have h2 := anfArms_mono arms (decImm s n).n
+    have h3 := anfDflt_mono dflt (anfArms arms (decImm s n).n).2
+    simp only [dec] at hx ⊢
+    refine (decImm_keys_of s n (dec_keys s) x hx).weaken (fun z hz => by simp [bnd, hz]) (Nat.le_refl _) ?_
+    unfold decImm at *; omega
+  | .cget c idx ty e, n, x, hx => by
+    simp only [dec] at hx ⊢
+    exact (decImm_keys_of e n (dec_keys e) x hx).weaken (fun z hz => by simpa [bnd] using hz) (Nat.le_refl _) (Nat.le_refl _)
+  | .un op ty e, n, x, hx => by
+    simp only [dec] at hx ⊢
+    exact (decImm_keys_of e n (dec_keys e) x hx).weaken (fun z hz => by simpa [bnd] using hz) (Nat.le_refl _) (Nat.le_refl _)
+  | .bin op ty l r, n, x, hx => by
+    have h1 := decImm_mono l n
+    have h2 := dec_mono r (decImm l n).n
+    have h3 := decImm_mono r (decImm l n).n
+    simp only [dec] at hx ⊢
+    split at hx
+    · rename_i hc
+      simp only [hc, if_true]
+      have hx' : x ∈ keys (decImm l n).L := by
+        unfold decImm; split at hx <;> exact hx
+      refine (decImm_keys_of l n (dec_keys l) x hx').weaken (fun z hz => by simp [bnd, hz]) (Nat.le_refl _) ?_
+      unfold decImm at *
+      split <;> simp only [anf_ret] <;> omega
+    · rename_i hc
+      simp only [hc]
+      simp only [keys_append, List.mem_append] at hx
+      rcases hx with hx | hx
+      · refine (decImm_keys_of l n (dec_keys l) x hx).weaken (fun z hz => by simp [bnd, hz]) (Nat.le_refl _) ?_
+        unfold decImm at *; simp only [Bool.false_eq_true, if_false]; omega
+      · refine (decImm_keys_of r _ (dec_keys r) x hx).weaken (fun z hz => by simp [bnd, hz]) ?_ ?_
+        · unfold decImm at *; omega
+        · simp only [Bool.false_eq_true, if_false]; exact Nat.le_refl _
+  | .call ty f args, n, x, hx => by
+    have h1 := decImm_mono f n
+    have h2 := decList_mono args (decImm f n).n
+    simp only [dec, keys_append, List.mem_append] at hx ⊢
+    rcases hx with hx | hx
+    · refine (decImm_keys_of f n (dec_keys f) x hx).weaken (fun z hz => by simp [bnd, hz]) (Nat.le_refl _) ?_
+      unfold decImm at *; omega
+    · refine (decList_keys args _ x hx).weaken (fun z hz => by simp [bnd, hz]) ?_ (Nat.le_refl _)
+      unfold decImm at *; omega
+  | .toDyn tr forTy ty e, n, x, hx => by
+    simp only [dec] at hx ⊢
+    exact (decImm_keys_of e n (dec_keys e) x hx).weaken (fun z hz => by simpa [bnd] using hz) (Nat.le_refl _) (Nat.le_refl _)
+  | .dynCall tr m ty recv args, n, x, hx => by
+    have h1 := decImm_mono recv n
+    have h2 := decList_mono args (decImm recv n).n
+    simp only [dec, keys_append, List.mem_append] at hx ⊢
+    rcases hx with hx | hx
+    · refine (decImm_keys_of recv n (dec_keys recv) x hx).weaken (fun z hz => by simp [bnd, hz]) (Nat.le_refl _) ?_
+      unfold decImm at *; omega
+    · refine (decList_keys args _ x hx).weaken (fun z hz => by simp [bnd, hz]) ?_ (Nat.le_refl _)
+      unfold decImm at *; omega
+  | .proj idx ty e, n, x, hx => by
+    simp only [dec] at hx ⊢
+    exact (decImm_keys_of e n (dec_keys e) x hx).weaken (fun z hz => by simpa [bnd] using hz) (Nat.le_refl _) (Nat.le_refl _)
+
+theorem decList_keys : ∀ (es : List Expr) (n : Nat) (x : String),
+    x ∈ keys (decList es n).L → KeyOk (bndList es) n (decList es n).n x
+  | [], n, x, hx => by simp [decList] at hx
+  | e :: rest, n, x, hx => by
+    have h1 := decImm_mono e n
+    have h2 := decList_mono rest (decImm e n).n
+    simp only [decList, keys_append, List.mem_append] at hx ⊢
+    rcases hx with hx | hx
+    · refine (decImm_keys_of e n (dec_keys e) x hx).weaken (fun z hz => by simp [bndList, hz]) (Nat.le_refl _) ?_
+      unfold decImm at *; omega
+    · refine (decList_keys rest _ x hx).weaken (fun z hz => by simp [bndList, hz]) ?_ (Nat.le_refl _)
+      unfold decImm at *; omega
+end
+
+theorem decImm_keys (e : Expr) (n : Nat) (x : String) (hx : x ∈ keys (decImm e n).L) :
+    KeyOk (bnd e) n (decImm e n).n x := decImm_keys_of e n (dec_keys e) x hx
+
 end Goml.Anf
